@@ -59,6 +59,22 @@ func (p vpool) Put(x any) {
 }
 func (vpool) Reset(x any) {}
 
+// vbufPool: a pool of *[]byte objects (the shape of the repository's own test pool).
+type vbufPool struct{}
+
+func (vbufPool) Get() any { b := make([]byte, 0, 16); return &b }
+func (vbufPool) Put(x any) {
+	if b, ok := x.(*[]byte); ok {
+		evAdd(fmt.Sprintf("putbuf%d", len(*b)))
+	}
+}
+func (vbufPool) Reset(x any) {
+	if b, ok := x.(*[]byte); ok {
+		evAdd(fmt.Sprintf("resetbuf%d", len(*b)))
+		*b = (*b)[:0]
+	}
+}
+
 func vpoolOf(tag int) string {
 	if tag%2 != 0 {
 		return "vpool2"
@@ -116,6 +132,31 @@ func init() {
 		}
 		return nil
 	})
+	dyntpl.RegisterModFn("vdefer2", "", func(ctx *dyntpl.Ctx, buf *any, val any, args []any) error {
+		// a deferred function that defers another one while the list is being run (Go-only checks of C18)
+		if t, ok := argInt(args); ok {
+			evAdd(fmt.Sprintf("reg%d", t))
+			ctx.Defer(func() error {
+				evAdd(fmt.Sprintf("ran%d", t))
+				ctx.Defer(func() error { evAdd(fmt.Sprintf("ran%d", t+1000)); return nil })
+				return nil
+			})
+		}
+		return nil
+	})
+	dyntpl.RegisterModFn("vgrow", "", func(ctx *dyntpl.Ctx, buf *any, val any, args []any) error {
+		// takes a byte buffer from the pool "vbuf" and grows it to n bytes (Go-only checks of C18)
+		if n, ok := argInt(args); ok {
+			x, err := ctx.AcquireFrom("vbuf")
+			if err != nil {
+				return err
+			}
+			b := x.(*[]byte)
+			*b = append((*b)[:0], make([]byte, n)...)
+			evAdd(fmt.Sprintf("acqbuf%d", n))
+		}
+		return nil
+	})
 	dyntpl.RegisterModFn("vdeferfail", "", func(ctx *dyntpl.Ctx, buf *any, val any, args []any) error {
 		// a deferred function that fails (not part of the Lean model's class: used by the C13 sequences only)
 		ctx.Defer(func() error { return errUserFail })
@@ -162,6 +203,7 @@ func init() {
 	})
 	_ = dyntpl.RegisterPool("vpool", vpool{"vpool"})
 	_ = dyntpl.RegisterPool("vpool2", vpool{"vpool2"})
+	_ = dyntpl.RegisterPool("vbuf", vbufPool{})
 }
 
 // ---- values ----
@@ -363,6 +405,7 @@ type faultWriter struct {
 	buf    []byte
 	writes int
 	failAt int
+	mode   int // what a failing call returns next to the error: 0 → 0 bytes, 1 → the full count (a tee / mirroring writer), 2 → half
 }
 
 var errInjected = errors.New("injected writer failure")
@@ -370,6 +413,14 @@ var errInjected = errors.New("injected writer failure")
 func (w *faultWriter) Write(p []byte) (int, error) {
 	w.writes++
 	if w.failAt > 0 && w.writes >= w.failAt {
+		// an error is an error whatever count comes with it (io.Writer: "Write must return a non-nil error if it
+		// returns n < len(p)" — and may return one with n == len(p)); the bytes of a failed call are not kept
+		switch w.mode % 3 {
+		case 1:
+			return len(p), errInjected
+		case 2:
+			return len(p) / 2, errInjected
+		}
 		return 0, errInjected
 	}
 	w.buf = append(w.buf, p...)
@@ -571,7 +622,7 @@ func (c *RCase) Run() {
 			}()
 			continue
 		}
-		w := &faultWriter{failAt: o.FailAt}
+		w := &faultWriter{failAt: o.FailAt, mode: oi + o.FailAt}
 		var err error
 		func() {
 			defer func() {
@@ -650,7 +701,7 @@ var (
 	intPool   = []int64{0, 1, -1, 2, 3, 5, 7, 10, 42, -17, 100, 127, 128, 255, 256, 1000, math.MaxInt32, math.MinInt32, math.MaxInt64, math.MinInt64}
 	uintPool  = []uint64{0, 1, 2, 3, 5, 10, 42, 255, 256, 65535, math.MaxUint32, math.MaxUint64}
 	floatPool = []float64{0, 1, -1, 0.5, -0.5, 2.25, 3.1415, 9000.015, -3.0000342543, 14.345241, 100, 1e6, 0.001, 123456.789, 1e-12, -2.5e-10}
-	strPool   = []string{"", "a", "b", "abc", "John", "x y", "<b>", "\"q\"", "it's", "a&b", "10", "-5", "3.5", "true", "Z", "abd", "ab", "é", "日本", "a/b?c=d"}
+	strPool   = []string{"", " ", "\t ", "\u00a0", "a", "b", "abc", "John", "x y", "<b>", "\"q\"", "it's", "a&b", "10", "-5", "3.5", "true", "Z", "abd", "ab", "é", "日本", "a/b?c=d"}
 )
 
 func pick[T any](r *Run, xs []T) T { return xs[r.Rng.Intn(len(xs))] }
